@@ -549,28 +549,38 @@ func typeView(c *Checked, mockName string) string {
 }
 
 // checkSolo is the C20 oracle: each mock of a joint run against the same mock generated alone.
-func checkSolo(job JobCfg, joint *Checked) string {
+// checkSolo regenerates every requested interface alone.  A solo run is a moq run of its own:
+// when its output does not type-check, that is reported (second result) under the properties the
+// errors belong to – C01 and what classify says – with the solo command line in the text.
+func checkSolo(job JobCfg, joint *Checked) (string, map[string]string) {
 	if len(job.Args) < 2 {
-		return ""
+		return "", nil
 	}
 	for _, a := range job.Args {
 		solo := job
 		solo.Args = []string{a}
 		out := runMoq(solo, "")
 		if out.Err != "" || out.Panic != "" {
-			return "solo generation of " + a + " fails: " + out.Err + out.Panic
+			return "solo generation of " + a + " fails: " + out.Err + out.Panic, nil
 		}
 		c, diag := typeCheck(solo, out.Out, "")
 		if diag != "" || c == nil || c.pkg == nil {
-			return "solo generation of " + a + " does not type-check: " + diag
+			own := map[string]string{"C01": "with the single argument " + a + ": " + diag}
+			if c != nil {
+				si := loadFull(job.Dir)
+				for k, v := range classify(c, anyGeneric(solo, si.types)) {
+					own[k] = "with the single argument " + a + ": " + v
+				}
+			}
+			return "solo generation of " + a + " does not type-check: " + diag, own
 		}
 		_, mk := splitArg(a)
 		v1, v2 := typeView(joint, mk), typeView(c, mk)
 		if v1 != v2 {
-			return fmt.Sprintf("mock %s differs between joint and solo generation:\n--- joint\n%s--- solo\n%s", mk, v1, v2)
+			return fmt.Sprintf("mock %s differs between joint and solo generation:\n--- joint\n%s--- solo\n%s", mk, v1, v2), nil
 		}
 	}
-	return ""
+	return "", nil
 }
 
 // classify attributes the type errors of the generated file to properties by where they are:
@@ -591,6 +601,9 @@ func classify(c *Checked, generic bool) map[string]string {
 		// generated into another package, a type of the source package written without qualifier
 		if i := strings.Index(msg, "undefined: "); i >= 0 && !c.inPlace && c.src != nil {
 			name := strings.Fields(msg[i+len("undefined: "):] + " ")[0]
+			if k := strings.LastIndex(name, "."); k >= 0 {
+				name = name[k+1:] // `q.Name`: a source-package type under a qualifier that is not its import
+			}
 			if c.src.Scope().Lookup(name) != nil {
 				add("C10", msg)
 			}
@@ -610,6 +623,11 @@ func classify(c *Checked, generic bool) map[string]string {
 			case *ast.FuncDecl:
 				if nameClash.MatchString(msg) {
 					add("C12", msg)
+				}
+				// a method signature naming a package or type that does not exist: the mock's
+				// method cannot have the interface's parameter and result types
+				if d.Recv != nil && pos >= d.Type.Pos() && pos <= d.Type.End() && strings.Contains(msg, "undefined: ") {
+					add("C02", msg)
 				}
 			case *ast.GenDecl:
 				switch d.Tok {
